@@ -67,6 +67,38 @@ CLAIMED = {
         note="Cover search bounded to <= 12 units.",
         technique="TLC model checking (MC_Align) + TLC exhaustive cover search over recorded instances",
         design="4/C11"),
+    "C10": dict(
+        text="FastAlign.tla models get_fast_alignment step for step (head selection in rounds of smallest end, x_limit, "
+             "extension, any optimal window alignment, take_until_limit, removal) and TLC explores every continuum of "
+             "integer-grid universes under every solver tie: progress of every iteration, termination, partition at the "
+             "end, never below the optimum, equal when the window covers everything; the pre-fix take_until_limit is the "
+             "mutant that must stall. Every such continuum is run through the real code under an iteration watchdog and "
+             "its cost must be one TLC reaches; random continua x dissimilarities x window sizes are recorded per "
+             "iteration and judged by TraceFast.tla / TraceAlign.tla; fast-mode gamma jobs log the algorithm they used.",
+        note="The step model uses the positional dissimilarity on integer grids; other dissimilarities are bound through "
+             "the recorded iterations (structure) and results (TraceAlign) only.",
+        technique="TLA+ step model (FastAlign) model-checked by TLC incl. liveness; spec behaviours replayed into the code; iteration traces validated by TLC",
+        design="4/C10"),
+    "C15": dict(
+        text="StatSampler.tla is the sampler as a machine consuming draws (count with the max(1,.) guard, gap, duration with "
+             "the redraw loop, category); TLC checks validity of the output for every draw sequence over a small domain "
+             "(mutants: guard removed, abs removed). Probes on np.random.normal/choice record every draw (arguments, "
+             "result) of real samples; TraceStatSampler.tla feeds them to the same actions, requires the returned "
+             "continuum to be the one built from them, and checks every draw's law parameters against the supplied ones "
+             "or the exact mean/variance TLC computes on the integer-grid reference.",
+        note="Assumed: numpy's generators follow the law requested (TLA+ has no probability). Gap estimator: the code's "
+             "variant and three neighbours accepted (not fixed by the statement).",
+        technique="TLA+ machine over draws model-checked by TLC; recorded RNG draws and outputs trace-validated by TLC",
+        design="4/C15"),
+    "C16": dict(
+        text="ShuffleSampler.tla models pivot drawing and the interval bookkeeping on an integer line for both pivot types; "
+             "TLC checks separation, that no available point lies within the distance of an earlier pivot, bounds and "
+             "whole-number pivots (mutant: the pre-fix interval subtraction). For real samples TraceShuffle.tla lets TLC "
+             "infer, per sampled annotator, the source annotator and pivot that explain it under the wrap rule, requires "
+             "the pivot to be one of the uniform draws really made, and replays the pivots through the bookkeeping.",
+        note="Times in 1/1000 fixed point, tolerance 2/1000. Known finding: int() truncation in int_pivot mode (deficit < 1).",
+        technique="TLA+ model of the pivot bookkeeping model-checked by TLC; recorded samples explained and judged by TLC (trace validation with inference)",
+        design="4/C16"),
 }
 PENDING = {}
 
